@@ -81,7 +81,8 @@ type Exec struct {
 }
 
 // SetRequestOf builds the gNMI request for a list of operations
-func SetRequestOf(ops []refmodel.Op, sync bool, usePrefixTarget bool) *gnmi.SetRequest {
+func SetRequestOf(ops []refmodel.Op, sync bool, usePrefixTarget bool, opt ...bool) *gnmi.SetRequest {
+	serializable := len(opt) > 0 && opt[0]
 	req := &gnmi.SetRequest{}
 	single := len(targetsOf(ops)) == 1 && usePrefixTarget
 	if single {
@@ -98,8 +99,15 @@ func SetRequestOf(ops []refmodel.Op, sync bool, usePrefixTarget bool) *gnmi.SetR
 			req.Update = append(req.Update, &gnmi.Update{Path: o.P.ToGNMI(t), Val: o.V.ToGNMI()})
 		}
 	}
-	if sync {
-		b, _ := proto.Marshal(&configapi.TransactionStrategy{Synchronicity: configapi.TransactionStrategy_SYNCHRONOUS})
+	if sync || serializable {
+		st := &configapi.TransactionStrategy{}
+		if sync {
+			st.Synchronicity = configapi.TransactionStrategy_SYNCHRONOUS
+		}
+		if serializable {
+			st.Isolation = configapi.TransactionStrategy_SERIALIZABLE
+		}
+		b, _ := proto.Marshal(st)
 		req.Extension = append(req.Extension, &gnmi_ext.Extension{Ext: &gnmi_ext.Extension_RegisteredExt{
 			RegisteredExt: &gnmi_ext.RegisteredExtension{Id: configapi.TransactionStrategyExtensionID, Msg: b}}})
 	}
@@ -119,11 +127,12 @@ func targetsOf(ops []refmodel.Op) []string {
 }
 
 // IssueSet starts a Set call in its own goroutine (own context, cancelled on return as gRPC does)
-func (e *Exec) IssueSet(ops []refmodel.Op, sync bool) *Call {
+func (e *Exec) IssueSet(ops []refmodel.Op, sync bool, opt ...bool) *Call {
+	serializable := len(opt) > 0 && opt[0]
 	inc := e.W.Cur()
 	call := &Call{N: len(e.Calls) + 1, Kind: "set", Ops: ops, Sync: sync, Inc: inc.N, done: make(chan struct{})}
 	e.Calls = append(e.Calls, call)
-	req := SetRequestOf(ops, sync, call.N%3 == 0)
+	req := SetRequestOf(ops, sync, call.N%3 == 0, serializable)
 	ctx, cancel := context.WithCancel(context.Background())
 	e.mu.Lock()
 	e.cancels = append(e.cancels, cancel)
@@ -246,7 +255,7 @@ func (e *Exec) RunSteps() {
 			}
 		case "set":
 			e.checkCrash()
-			c := e.IssueSet(st.Ops, st.Sync)
+			c := e.IssueSet(st.Ops, st.Sync, st.Serializable)
 			e.script("%s %s", c.Name(), st.String())
 			if !st.NoWait {
 				e.awaitOrCrash(c)
